@@ -31,6 +31,7 @@ def run(tier, seed):
         t["opts"]["W"] = rng.choice([2, 3])
         t["enum_limit"] = 600 if tier == "quick" else 4000
     tl.append(en)
+    tl.append(C.literal_chain_tasks(seed, 400 if tier == "quick" else 10000))
     tl.append(C.join_enum_tasks(seed, 4 if tier == "quick" else 24, limit=2500 if tier == "quick" else None))
     EC.campaign(res, PROP, tl,
                 "executions of uberjob.run under the deterministic scheduler (random / PCT / all single preemptions), "
